@@ -51,6 +51,8 @@ WHAT = {
  'pasted into generated code unsanitised': ("C19", "get_converter(name='weird name' / 'class' / \"a'b\" / text with a newline) and impl_converter stubs so named: SyntaxError / IndentationError (the name reaches the def line raw); '_update_wrapper' as stub name -> TypeError; a linked function or destination class whose __name__ is a keyword or empty -> SyntaxError (kwids_build, conv_names)"),
  'members of equal sort keys': ("C15", "normalize_type(List[Union[list[Literal[1]], list[Literal['1']]]]) != normalize_type(list[Union[list[Literal['1']], list[Literal[1]]]]) (members with equal rendered sort keys kept input order; also Annotated[int, 1] / Annotated[int, '1'], classes / NewTypes of one name, Callable parameter lists spelled List[int] / list[int]); hashes differed too (congruence samekey_*; reported by a seed agent on the clean tree)"),
  'PEP 695 alias lost its arguments': ("C15", "type Box[T] = list[T]: normalize_type(Box[int]).source is bare Box (normalisation of the source not idempotent); load([1], Optional[Box[int]]) / load([[1]], list[Box[int]]) -> ProviderNotFoundError while Box[int] loads (congruence idem alias_box_int; builds opt_alias_box_int; reported by a seed agent on the clean tree)"),
+ 'bytes member next to a bool, 0 or 1 member': ("C02", "strict load('YWI=', Literal[b'ab', 1]) rejected although dump(b'ab') is 'YWI=' and the lax loader accepts it: the typed strict branch returned before the bytes wrapper; also breaks the C01 round trip (litenum_load_bytes_1 di=16, litenum_rt_bytes_1; reported by a seed agent on the clean tree)"),
+ 'only equal to a Literal case': ("C02", "dump(Decimal(200), Union[Literal[200, 300], Decimal]) -> Decimal('200') instead of '200' (membership by ==; also Fraction(1), an IntEnum member, 1.0); Decimal('sNaN') -> InvalidOperation (dump_union_literal_lit_dec di=5 / di=10; reported by a seed agent on the clean tree)"),
 }
 WHAT.update(json.load(open('/verif/tools/fixed_extra.json')) if __import__('os').path.exists('/verif/tools/fixed_extra.json') else {})
 log = subprocess.run(["git", "-C", "/repo", "log", "--format=%h %s"], capture_output=True, text=True).stdout.splitlines()
